@@ -257,6 +257,14 @@ def run(ctx):
             sy = [c for c, d, g in sends if d.startswith("Notification::Synced") and any(l == key for dd, l, _ in g)]
             r.check(len(ev) == 1 and len(sy) == 1 and pw.reaches(ev[0].block, {sy[0].block}) and not pw.reaches(sy[0].block, {ev[0].block}), "perform_write/%s/events-then-synced" % key, where(pw),
                     "%s: events precede synced, nothing follows it" % key, "%s: an event can be sent after synced" % key)
+        # ValueSynced(true) means a value is waiting in the buffer: it is sent whatever it looks like (an empty body is a value too - the Recon of
+        # Extant / None); any further condition on the send leaves the remote synced with a stale value
+        evv = [(c, g) for c, d, g in sends if d.startswith("Notification::Event") and any(l == "ValueSynced" for dd, l, _ in g)]
+        for c, g in evv:
+            extra = [(dd, l) for dd, l, _ in g if not dd.startswith("disc(") and not re.match(r"^action<ValueSynced>\.0$", dd)]
+            flag = [(dd, l) for dd, l, _ in g if re.match(r"^action<ValueSynced>\.0$", dd)]
+            r.check(flag == [("action<ValueSynced>.0", "true")] and not extra, "perform_write/ValueSynced/value-sent-iff-flag", c.loc(), "the pending value is sent exactly when the action says one is pending",
+                    "the pending value of ValueSynced(true) is sent only if %s also holds: a value for which it does not (an empty body is the Recon of Extant) is dropped and only `synced` goes out - the remote believes it is synced and keeps the previous value" % [dd for dd, l in extra][:2])
         hd = [c for c in pw.calls if c.name == "has_data"]
         sy = [c for c, d, g in sends if d.startswith("Notification::Synced") and any(l == "MapSynced" for dd, l, _ in g)]
         if hd and sy:
